@@ -74,6 +74,25 @@ Proof.
   destruct (N.eqb_spec c 10); [subst; discriminate|reflexivity].
 Qed.
 
+Lemma bare_number_nolf : forall lex dt, bare_number lex dt = true -> nolf lex = true.
+Proof.
+  intros lex dt H. unfold bare_number in H. apply orb_true_iff in H.
+  assert (Hdig : forall d, forallb is_digit d = true -> nolf d = true) by (intros; apply (nolf_of is_digit); auto).
+  assert (Hdec : forall b, dec_body b = true -> nolf b = true).
+  { intros b Hb. destruct (dec_body_shape b Hb) as [ip [fp [Eb [Hcan [Hf _]]]]]. subst b.
+    destruct (canonical_digits ip Hcan) as [Hi _].
+    change (ip ++ 46 :: fp) with (ip ++ [46] ++ fp). rewrite !nolf_app, (Hdig ip Hi), (Hdig fp Hf). reflexivity. }
+  destruct H as [H|H]; apply andb_true_iff in H; destruct H as [_ Hs].
+  - destruct lex as [|c d]; [discriminate|]. destruct (N.eqb_spec c 45); [subst c|].
+    + apply andb_true_iff in Hs. destruct Hs as [Hcan _]. destruct (canonical_digits d Hcan) as [Hi _].
+      change (45 :: d) with ([45] ++ d). rewrite nolf_app, (Hdig d Hi). reflexivity.
+    + exfalso. revert Hs. clear -n. destruct c as [|p]; [discriminate|].
+      do 6 (destruct p as [p|p|]; try discriminate). congruence.
+  - destruct lex as [|c b]; [discriminate|]. destruct (N.eqb_spec c 45); [subst c|].
+    + change (45 :: b) with ([45] ++ b). rewrite nolf_app, (Hdec b Hs). reflexivity.
+    + apply Hdec. revert Hs. destruct c as [|p]; auto. do 6 (destruct p as [p|p|]; auto); try (exfalso; apply n; reflexivity).
+Qed.
+
 Lemma render_term_nolf : forall st t, term_tsv_ok t = true -> nolf (render_term st t) = true.
 Proof.
   intros st [s|s|lex dt lang] Hok; simpl in Hok.
@@ -91,7 +110,9 @@ Proof.
                 && (str_eqb lex s_true || str_eqb lex s_false)) eqn:E2.
       * apply andb_true_iff in E2. destruct E2 as [_ Hb]. apply orb_true_iff in Hb.
         destruct Hb as [Hb|Hb]; apply str_eqb_true in Hb; subst lex; reflexivity.
-      * assert (Hq : quote_of st = 34 \/ quote_of st = 39) by (unfold quote_of; destruct (st_sq st); auto).
+      * destruct (st_bare st && ostr_eqb lang None && bare_number lex dt) eqn:E3.
+        { apply andb_true_iff in E3. destruct E3 as [_ Hb]. apply bare_number_nolf with dt. exact Hb. }
+        assert (Hq : quote_of st = 34 \/ quote_of st = 39) by (unfold quote_of; destruct (st_sq st); auto).
         change (quote_of st :: flat_map (esc_char st (quote_of st)) lex ++ [quote_of st] ++
                   match lang with Some l => 64 :: l
                   | None => match dt with Some d => 94 :: 94 :: 60 :: d ++ [62] | None => [] end end)
@@ -271,9 +292,9 @@ Proof.
   - pose proof (header_length vars). lia.
 Qed.
 
-Lemma tsv_ok : forall c, wf c = true -> c_fmt c = FTsv -> spec_ok c (model_obs c) = true.
+Lemma tsv_ok : forall c, wf c = true -> c_fmt c = FTsv -> spec_ok c (format_obs c) = true.
 Proof.
-  intros c Hwf Hf. unfold spec_ok, model_obs. rewrite Hf.
+  intros c Hwf Hf. unfold spec_ok, format_obs. rewrite Hf.
   unfold wf in Hwf. rewrite Hf in Hwf.
   apply andb_true_iff in Hwf. destruct Hwf as [Hwf Ht]. apply andb_true_iff in Hwf. destruct Hwf as [Hnd Hrows].
   apply andb_true_iff in Hnd. destruct Hnd as [Hnd _].
